@@ -140,6 +140,7 @@ func genExecve(c *vcore.Ctx, usedCodes map[int]bool) *s1op {
 	op := &s1op{kind: "execve", args: []string{filepath.Join(s1Root, "bin", "prog"), "x"}, env: []string{"PATH=" + filepath.Join(s1Root, "bin")}}
 	op.syncAfter = src.Bool(1, 4, "syncAfter")
 	op.nfiles = src.Int(3, "nfiles")
+	op.fdExec = src.Bool(1, 4, "fexecve") // the executable travels as a descriptor ahead of the file list
 	st := src.Int(12, "stage")
 	switch {
 	case st == 0:
@@ -326,7 +327,7 @@ func genOp(c *vcore.Ctx, sh *s1Shape, used map[int]bool) *s1op {
 func (o *s1op) String() string {
 	switch o.kind {
 	case "execve":
-		return fmt.Sprintf("Execve(stage=%s code=%d syncAfter=%v files=%d)", o.stage, o.code, o.syncAfter, o.nfiles)
+		return fmt.Sprintf("Execve(stage=%s code=%d syncAfter=%v files=%d fexecve=%v)", o.stage, o.code, o.syncAfter, o.nfiles, o.fdExec)
 	case "open":
 		var parts []string
 		for _, x := range o.open {
@@ -404,7 +405,7 @@ func (s *s1Sim) call(ctx context.Context, op *s1op, out *s1res) {
 			p.Files = append(p.Files, s.files[i].Fd())
 		}
 		if op.fdExec {
-			p.ExecFile = s.files[0].Fd()
+			p.ExecFile = s.files[2].Fd()
 		}
 		p.SyncFunc = func(pid int) error {
 			out.synced = true
